@@ -87,6 +87,10 @@ def run(ctx):
     from mstatic.rules import authhook
     authhook.request_context(ctx, r8)
     authhook.auth_hook(ctx, r8)
+    r9 = ctx.rule('R9', 'an event fires the triggers of its own project and '
+                  'the triggers that are themselves public, nothing else',
+                  'DT (element predicate)')
+    event_fanout(ctx, r9)
 
 
 def _run(ctx):
@@ -315,6 +319,8 @@ def _run(ctx):
                          ctx.loc(f))
                 continue
             check_mutation(ctx, r3, f)
+
+    other_row_mutations(ctx, r3)
 
     # sharing a resource is an owner-only operation as well
     mp = prog.func('mistral.api.controllers.v2.member.MembersController.'
@@ -647,6 +653,69 @@ def check_mutation(ctx, r3, f):
                  'change/delete a public or shared resource)', ctx.loc(f, c))
 
 
+def other_row_mutations(ctx, r3):
+    """Who else mutates such a row: any DB-API function (create_or_update_*
+    and friends) that changes an object it read through the
+    public-including secure query must check its owner first - delegating
+    to update_<x> / delete_<x> (which do) is the other accepted form."""
+    prog = ctx.prog
+    names = ownership_wrappers(ctx)
+    readers = set()
+    for stem in MUTABLE_PUBLIC:
+        readers |= {'get_' + stem, 'load_' + stem, '_get_' + stem}
+    enumerated = {'%s_%s' % (v, st) for st in MUTABLE_PUBLIC
+                  for v in ('update', 'delete')}
+    n = 0
+    for f in prog.funcs_in_module(DB):
+        if f.parent is not None or f.name in enumerated:
+            continue
+        cfg = ctx.cfg(f)
+        # locals bound to a row of a public / shareable model
+        rows = {}
+        for x in own_nodes(f.node):
+            if isinstance(x, ast.Assign) and len(x.targets) == 1 and \
+                    isinstance(x.targets[0], ast.Name) and \
+                    isinstance(x.value, ast.Call):
+                c = x.value
+                model = None
+                if c.args and (dotted(c.args[0]) or '').startswith(
+                        'models.') and dotted(c.args[0]).split('.')[-1] in \
+                        MUTABLE_PUBLIC.values() and \
+                        U.call_name(c).startswith('_get_db_object'):
+                    model = dotted(c.args[0])
+                elif U.call_name(c) in readers:
+                    model = U.call_name(c)
+                if model:
+                    rows[x.targets[0].id] = model
+        if not rows:
+            continue
+        for nd, c in cfg.calls():
+            tgt = None
+            if U.call_name(c) == 'update' and \
+                    isinstance(c.func, ast.Attribute) and \
+                    isinstance(c.func.value, ast.Name) and \
+                    c.func.value.id in rows:
+                tgt = c.func.value.id
+            elif U.call_dotted(c) == 'session.delete' and c.args and \
+                    isinstance(c.args[0], ast.Name) and \
+                    c.args[0].id in rows:
+                tgt = c.args[0].id
+            if tgt is None:
+                continue
+            n += 1
+            chk = [k for k, cc in U.calls_in(cfg, *names)
+                   if cc.args and norm(cc.args[0]) == tgt]
+            r3.check(any(cfg.dominates(k, nd) for k in chk),
+                     ctx.construct(f, c, extra='owner checked'),
+                     '%s changes a %s row it read through the '
+                     'public-including secure query without checking its '
+                     'owner: a project that uploads a definition with the '
+                     'same name as another project\'s public one overwrites '
+                     'and takes over that one' % (f.name, rows[tgt]),
+                     ctx.loc(f, c))
+    return n
+
+
 def ownership_wrappers(ctx):
     """Names of functions that are ownership checks on their first
     parameter P: the normal exit is unreachable when a security context
@@ -709,3 +778,113 @@ def _same_row(call, checked_names, checked_keys):
                         r in checked_keys:
                     return True
     return False
+
+
+def event_fanout(ctx, rule):
+    """An event starts the workflows of the triggers of the event's own
+    project and of the triggers that are themselves public - decided per
+    trigger.  (A flag about the whole trigger list, such as "some trigger of
+    this event type is public", must not select another project's private
+    trigger.)"""
+    import itertools
+    from mstatic.rules import dt
+    from mstatic.statedom import Frame, UNK
+    prog, sd = ctx.prog, ctx.sd
+    f = prog.func('mistral.event_engine.default_event_engine.'
+                  'DefaultEventEngine._loop')
+    starts = [c for c in own_nodes(f.node) if isinstance(c, ast.Call) and
+              U.call_name(c) == '_start_workflow' and c.args]
+    if len(starts) != 1 or not isinstance(starts[0].args[0], ast.Name):
+        raise AnalysisError('C15.R9: _start_workflow call in _loop')
+    L = starts[0].args[0].id
+    cond = var = None
+    # comprehension form
+    for x in own_nodes(f.node):
+        if isinstance(x, ast.Assign) and dotted(x.targets[0]) == L and \
+                isinstance(x.value, ast.ListComp) and \
+                len(x.value.generators) == 1:
+            g = x.value.generators[0]
+            if norm(x.value.elt) == norm(g.target):
+                var = norm(g.target)
+                cond = ast.BoolOp(op=ast.And(), values=list(g.ifs)) \
+                    if len(g.ifs) > 1 else (g.ifs[0] if g.ifs
+                                            else ast.Constant(True))
+    # loop + append form
+    if cond is None:
+        for lp in [x for x in own_nodes(f.node) if isinstance(x, ast.For)]:
+            aps = [c for b in lp.body for c in ast.walk(b)
+                   if isinstance(c, ast.Call) and U.call_name(c) == 'append'
+                   and dotted(c.func.value) == L]
+            if len(aps) == 1 and norm(aps[0].args[0]) == norm(lp.target):
+                var = norm(lp.target)
+                cfg = ctx.cfg(f)
+                n = cfg.node_of(aps[0])
+                head = [x_ for x_ in cfg.nodes
+                        if x_.kind == 'for' and x_.ast is lp]
+                outer = {(norm(a, 300), t) for a, t in
+                         U.guard_atoms(cfg, head[0])} if head else set()
+                inner = [(a, t) for a, t in U.guard_atoms(cfg, n)
+                         if (norm(a, 300), t) not in outer and
+                         not isinstance(a, ast.For) and
+                         norm(a, 300) != norm(lp.iter, 300)]
+                parts = [a if t else ast.UnaryOp(op=ast.Not(), operand=a)
+                         for a, t in inner]
+                cond = ast.BoolOp(op=ast.And(), values=parts) \
+                    if len(parts) > 1 else (parts[0] if parts
+                                            else ast.Constant(True))
+                # locals of the loop body are part of the condition
+                for b in lp.body:
+                    for z in ast.walk(b):
+                        if isinstance(z, ast.Assign) and \
+                                isinstance(z.targets[0], ast.Name):
+                            cond = _subst(cond, z.targets[0].id, z.value)
+    if cond is None:
+        raise AnalysisError('C15.R9: selection of the triggers to call')
+    kproj = kpub = None
+    for x in ast.walk(cond):
+        if isinstance(x, ast.Compare) and len(x.ops) == 1 and \
+                isinstance(x.ops[0], ast.Eq):
+            t = norm(x, 200)
+            if "%s['project_id']" % var in t:
+                kproj = ' '.join(ast.unparse(x).split())
+            if "%s['scope']" % var in t and "'public'" in t:
+                kpub = ' '.join(ast.unparse(x).split())
+    rule.check(kproj is not None and kpub is not None and
+               "context.get('project_id')" in (kproj or ''),
+               ctx.construct(f, extra='per-trigger owner and scope'),
+               'the triggers to call are not selected by each trigger\'s own '
+               'project (== the project of the event) and own scope',
+               ctx.loc(f, starts[0]))
+    if kproj is None or kpub is None:
+        return
+    flags = sorted({n_ for n_ in U.names_in(cond)} - {var, 'context'})
+    keys = [kproj, kpub] + flags
+    fr = Frame(f.module, {}, None, f)
+    sd._textkeys = True
+    bad = []
+    try:
+        for vals in itertools.product((True, False), repeat=len(keys)):
+            env = dict(zip(keys, vals))
+            got = sd.truth(sd.ev(cond, env, fr))
+            want = env[kproj] or env[kpub]
+            if got is UNK or bool(got) != bool(want):
+                bad.append((env, got))
+    finally:
+        sd._textkeys = False
+    rule.check(not bad, ctx.construct(f, extra='own project or own public '
+                                      'scope, nothing else'),
+               'a trigger is selected %s for %s: the selection must be '
+               '"trigger of the event\'s project, or the trigger itself is '
+               'public"' % (bad[0][1] if bad else '', bad[0][0] if bad
+                            else ''), ctx.loc(f, starts[0]))
+
+
+def _subst(expr, name, value):
+    import copy
+
+    class T(ast.NodeTransformer):
+        def visit_Name(self, node):
+            if node.id == name and isinstance(node.ctx, ast.Load):
+                return copy.deepcopy(value)
+            return node
+    return T().visit(copy.deepcopy(expr))
